@@ -46,6 +46,17 @@ PROPS = {
         "bounded": [{"group": "ndarr", "name": "bounded_update_counts_2x2", "bound": "2 rows x 2 samples, symbolic bytes, flag and stored counts",
                      "args": ["-Z", "unstable-options", "--cbmc-args", "--unwindset", "memcmp.0:18"], "timeout": 2400}],
     },
+    "C07": {
+        "level": "other",
+        "explanation": "BOUNDED check of the table operations (never counted as proved) plus a complete wiring proof: Kani runs the verbatim text of MergeSkaDict::extend / merge / append in a fragment crate whose containers (hashbrown::HashMap, Vec, String) are small stand-ins with the same interface, for at most 2 split k-mers (symbolic values) and 2 samples per operand, against the abstract table `names ++ names, row(k) = self cells ++ other cells, 0 where absent` (extend) and `cellwise OR over disjoint samples` (merge/append), and proves that a k or strand-mode mismatch never returns; Kani proves on the real generic_modes::merge (callees stubbed) that files are loaded and joined in argument order with the accumulated dictionary on the left and that the output is written once, after the last extend. Verus proves which cells MergeSkaArray::new turns into '-' (0 -> '-').",
+        "verus": [("rowfrag", [None])],
+        "functions": ["new.count_pred", "new.zero_to_gap"],
+        "kani": [("mergewrap", None)],
+        "bounded_quick": [{"group": "mergefrag", "name": "mergefrag_all", "names": ["bounded_extend_2s2k_2s2k", "bounded_extend_1s2k_2s1k", "bounded_extend_2s0k_1s2k", "bounded_extend_1s1k_1s0k", "extend_refuses_mismatch", "extend_returns_on_match", "bounded_merge_2s_2k_2k", "bounded_merge_2s_0k_1k", "bounded_merge_2s_1k_0k", "merge_refuses_mismatch", "bounded_append_2s_2k_2k", "bounded_append_2s_0k_2k", "append_refuses_mismatch"],
+                           "bound": "<= 2 split k-mers (symbolic, distinct) and <= 2 samples per operand; containers re-bound to inline-array stand-ins", "timeout": 2400}],
+        "bounded": [],
+        "bounded_core": True,
+    },
     "C12": {
         "level": "proof",
         "verus": [("kmer", ["u64", "u128"]), ("bloom", [None])],
@@ -82,7 +93,7 @@ PROPS = {
                       "SplitKmer::get_curr_kmer", "SplitKmer::get_next_kmer", "SplitKmer::get_middle_pos"],
         "kani": [("weedwrap", None)],
         "bounded_quick": [{"group": "weedset", "name": "weed_set_is_the_listed_kmers", "bound": "weed lists of <= 3 k-mers with arbitrary u64 values", "timeout": 1200},
-                          {"group": "weedset", "name": "bounded_weed_whole_2x2", "bound": "2 split k-mers x 2 samples, <= 2 weed k-mers, all values symbolic",
+                          {"group": "weedset", "name": "bounded_weed_whole_1x2", "bound": "1 split k-mer x 2 samples, 1 weed k-mer, all values symbolic",
                            "args": ["-Z", "unstable-options", "--cbmc-args", "--unwindset", "memcmp.0:18"], "timeout": 2400}],
         "bounded": [],
     },
@@ -97,6 +108,7 @@ PROPS = {
         "bounded": [{"group": "ndarr", "name": "bounded_variant_dist_len3", "bound": "columns of length 3 over {A,C,G,T,-}, constant in {0,1,2,3}",
                      "args": ["-Z", "unstable-options", "--cbmc-args", "--unwindset", "memcmp.0:18"], "timeout": 1500}],
         "bounded_in_quick": True,
+        "bounded_core": True,
         "bounded_thorough": [{"group": "ndarr", "name": "bounded_variant_dist_len4", "bound": "columns of length 4 over {A,C,G,T,-}, constant in {0,1,2,3}",
                               "args": ["-Z", "unstable-options", "--cbmc-args", "--unwindset", "memcmp.0:18"], "timeout": 5400}],
     },
@@ -150,6 +162,8 @@ KANI_GROUPS = {
                  "attach_also": [("src/ska_ref.rs", "weedhelp_harness.rs", "weedhelp")]},
     "weedset": {"attach": "src/merge_ska_array.rs", "file": "weedset_harness.rs", "incrate_unit": "weedset_k", "complete": False,
                 "attach_also": [("src/ska_ref.rs", "weedhelp_harness.rs", "weedhelp")]},
+    "mergewrap": {"attach": "src/merge_ska_dict.rs", "file": "mergewrap_harness.rs", "complete": True, "args": ["-Z", "stubbing"],
+                  "attach_also": [("src/merge_ska_array.rs", "mergehelp_harness.rs", "mergehelp")]},
     "mergefrag": {"fragment_unit": "mergefrag_k", "file": "mergefrag_harness.rs", "complete": False},
     "wrappers": {"attach": "src/merge_ska_array.rs", "file": "wrappers_harness.rs", "complete": True, "args": ["-Z", "stubbing"]},
     "bitops": {"attach": "src/ska_dict/bit_encoding.rs", "file": "bitops_harness.rs", "complete": True},
